@@ -65,8 +65,10 @@ Spec == Init /\ [][Next]_vars
 TypeOK == A \subseteq Univ /\ B \subseteq Univ
 ObserversPure == [][ret'.t # "none" => (A' = A /\ B' = B)]_vars
 
-Proj == [A |-> A, B |-> B]
+HullOf(S) == IF S = {} THEN <<-1, -1>> ELSE <<Min(S), Max(S)>>
+Proj == [A |-> A, B |-> B, lenA |-> Cardinality(A), lenB |-> Cardinality(B), eq |-> (A = B), hullA |-> HullOf(A)]
 AbsView == <<A, B, loaded>>
 ToSet(q) == {q[i] : i \in 1..Len(q)}
-Matches(j) == A = ToSet(j.A) /\ B = ToSet(j.B)
+Matches(j) == /\ A = ToSet(j.A) /\ B = ToSet(j.B) /\ Cardinality(A) = j.lenA /\ Cardinality(B) = j.lenB
+              /\ (A = B) = j.eq /\ HullOf(A) = j.hullA
 =============================================================================
